@@ -468,9 +468,7 @@ func (mh *MessageHandler) processCachedMsgs() {
 					mh.eventMux.AsyncPost(ProposedBlockMsgEvent{Msg: message.(*CachedBlockMessage)}) //, FromCache:true})
 				case msgPriorityProposal:
 					mh.eventMux.AsyncPost(PriorityMsgEvent{Msg: message.(*CachedPriorityMessage)}) //, FromCache:true})
-				case msgPrevote:
-				case msgPrecommit:
-				case msgNext:
+				case msgPrevote, msgPrecommit, msgNext:
 					mh.eventMux.AsyncPost(VoteMsgEvent{Msg: message.(*CachedVotesMessage), VType: MsgCodeToVoteType(code)}) //, FromCache:true})
 				}
 			}
